@@ -35,7 +35,8 @@ SECOND = {"AuthnFailed": "StatusAuthnFailed", "InvalidAttrNameOrValue": "StatusI
           "TooManyResponses": "StatusTooManyResponses", "UnknownAttrProfile": "StatusUnknownAttrProfile", "UnknownPrincipal": "StatusUnknownPrincipal",
           "UnsupportedBinding": "StatusUnsupportedBinding", "VersionMismatch": "StatusVersionMismatch", "Responder": "StatusResponder"}
 SECOND_EXTRA = ["<absent>", "urn:example:status:Nonstandard", S + "NotAStandardCode"]   # (an empty Value is schema-invalid, not a status)
-VERSIONS = ["1.0", "1.1", "2.0", "2.1", "3.0", "two", "", "<absent>", "2", "2.00", "02.0", " 2.0"]
+VERSIONS = ["1.0", "1.1", "2.0", "2.1", "3.0", "two", "", "<absent>", "2", "2.00", "02.0", " 2.0", "2.", "+2.0", "2e0", "2.0e0", "nan", "NaN", "inf",
+            "2.0 ", "2,0", "２.０", "0x2", "2_0", "2.0.0"]
 
 
 def gen_cases(tier, seed):
